@@ -262,6 +262,7 @@ class VM:
         self.used_functions = set()
         self.used_summaries = set()
         self.recursion_hook = None           # called with (state, fn, args) on calls
+        self.overrides = []                  # kernel-specific stubs: (compiled regex, handler), consulted first
         self.loop_watch = []                 # substrings of function names whose re-entry is checked for non-termination
         for name, f in funcs.items():
             if f.is_const:
@@ -840,6 +841,11 @@ class VM:
         if mref and all(isinstance(a, Ptr) for a in argvals):
             inner = f'<{mref.group(1)} as PartialEq>::{mref.group(3)}'
             return self.call_named(st, inner, [self.load(st, a) for a in argvals], dest, ret_bb)
+        for rx, handler in self.overrides:
+            mo = rx.search(callee)
+            if mo:
+                self.used_summaries.add('override:' + rx.pattern)
+                return handler(self, st, callee, argvals, dest, ret_bb, mo)
         # trait-object call: dispatch on the concrete type of the receiver
         mdyn = re.match(r'^<dyn (.+?) as (.+?)>::(\w+)$', callee)
         if mdyn and argvals and isinstance(argvals[0], Ptr):
